@@ -330,8 +330,10 @@ impl<'a> Gen<'a> {
         }
     }
     fn title(&mut self) -> Object {
-        match self.r.below(6) {
+        match self.r.below(8) {
             0 => lit(b"\xfe\xff\x00T\x00i"), 1 => lit(b"\xff\xfeT\x00i\x00"), 2 => lit(b"\xfe\xff\x00T\x00"), 3 => lit(b"x"),
+            // byte-order-mark edge cases: a lone first mark byte, a bare mark, an empty title
+            4 => lit(*self.r.pick(&[&b"\xfe"[..], b"\xff", b"\xfe\xff", b"\xff\xfe", b"", b"\xef", b"\xef\xbb", b"\xef\xbb\xbf", b"\xfe\x00", b"\xff\x00\x00"])),
             _ => lit(format!("Title {}", self.r.below(4)).as_bytes()),
         }
     }
@@ -791,6 +793,31 @@ fn known_streams(c: &mut Ctx) {
     const B8: i64 = 1152921504606846974; // same for 8-byte elements
     let specials: [i64; 17] = [-1, -5, i64::MIN, 1 << 36, 1 << 40, 1 << 59, 1 << 60, 1 << 62, i64::MAX, B12 - 1, B12, B12 + 1, B8 - 1, B8, B8 + 1, i64::MAX - 1, 1 << 50];
     let mut batch = vec![]; let mut docs = vec![];
+    // ---- page trees with cycles through the LAST kid of a node (nothing is pushed on the iterator's stack there):
+    // ---- enumeration must still terminate through the iteration budget
+    for i in 0..c.n(40, 400) {
+        let Some(mut r) = c.case("pagecycle", i) else { continue };
+        let mut doc = mini(vec![], vec![]);
+        let depth = 1 + r.usize(4);
+        let mut top_kids = vec![]; if r.chance(1, 2) { top_kids.push(rf((3, 0))); }
+        top_kids.push(rf((20, 0)));
+        for k in 0..depth {
+            let id = 20 + k as u32;
+            let mut kids = vec![]; if r.chance(1, 2) { kids.push(rf((3, 0))); }
+            // last kid: the next level, or (at the bottom) a back edge to some ancestor / itself / the root
+            let back = if r.chance(1, 3) { 2 } else { 20 + r.usize(k + 1) as u32 };
+            kids.push(rf((if k + 1 < depth { id + 1 } else { back }, 0)));
+            doc.objects.insert((id, 0), Object::Dictionary(dict(vec![("Type", name("Pages")), ("Kids", Object::Array(kids)), ("Count", Object::Integer(1))])));
+        }
+        doc.objects.insert((2, 0), Object::Dictionary(dict(vec![("Type", name("Pages")), ("Kids", Object::Array(top_kids)), ("Count", Object::Integer(1))])));
+        let targets = vec![(3, 0)];
+        let hz = analyse(&doc, &targets);
+        for f in ["pages", "iter", "text"] {
+            let req = request(&format!("one={}", f), &targets, &doc);
+            c.nontrivial(&req); c.count("pagecycle.cases");
+            batch.push(Pending { case_id: c.cur, stream: "pagecycle".into(), req, doc_targets: targets.clone(), hazard: hz.clone() }); docs.push(doc.clone());
+        }
+    }
     for i in 0..c.n(19, 120) {
         let Some(mut r) = c.case("count", i) else { continue };
         let k = if (i as usize) < specials.len() { 1 } else { 1 + r.usize(4) };
